@@ -658,11 +658,22 @@ NvmModule *asm_assemble(const char *source, AsmResult *result) {
         memcpy(line_buf, line_start, line_len);
         line_buf[line_len] = '\0';
 
-        /* Strip trailing comment */
-        char *comment = strchr(line_buf, ';');
-        if (comment) *comment = '\0';
-        comment = strchr(line_buf, '#');
-        if (comment) *comment = '\0';
+        /* Strip trailing comment (';' or '#'), but not inside a quoted string:
+         * .string "a;b" must keep its text */
+        {
+            bool in_string = false;
+            for (char *q = line_buf; *q; q++) {
+                if (in_string) {
+                    if (*q == '\\' && q[1] != '\0') q++;
+                    else if (*q == '"') in_string = false;
+                } else if (*q == '"') {
+                    in_string = true;
+                } else if (*q == ';' || *q == '#') {
+                    *q = '\0';
+                    break;
+                }
+            }
+        }
 
         /* Strip trailing whitespace */
         size_t len = strlen(line_buf);
